@@ -4,16 +4,23 @@ Two exhaustive spaces, both evaluated case by case on the real implementation:
 
 G (format matrix, E-grid)
     class {DFunction, AbsSpectrum, TwoDResponse, DensityMatrixEvolution} x extension
-    {.dat,.txt,.npy,.npz,.mat} x data flavour (real / complex ...) x shape {(N,), (N,M)}
-    (+ (Nt,d,d) Hermitian for DensityMatrixEvolution) x {without axis, with axis}, through the
-    public ``save_data`` / ``load_data``.  The file is loaded into a DIFFERENT object (other
-    axis, zero data), so a load that does nothing is seen.  Oracle: loaded data have the shape
-    and the values of the exported array (class R), the axis handed to ``load_data`` carries
-    the values of the exported axis.
+    {.dat,.txt,.npy,.npz,.mat} x data flavour (real / complex ...) x shape {(N,), (N,M)} with
+    N and M running from ONE, i.e. including a single point (1,), a single row (1,M), a single
+    column (N,1) and a single entry (1,1) (+ (Nt,d,d) Hermitian for DensityMatrixEvolution,
+    Nt and d from one) x {without axis, with axis}, through the public ``save_data`` /
+    ``load_data``.  The file is loaded into a DIFFERENT object (other axis, zero data), so a
+    load that does nothing is seen.  Oracle: loaded data have the shape and the values of the
+    exported array (class R), the axis handed to ``load_data`` carries the values of the
+    exported axis.  Where the LAYOUT of the file cannot tell a dimension of length one from
+    no dimension (``_g_shape_rule``: header-less text tables without axis; the [axis | data]
+    layout with one data column) the shape may come back with dimensions of length one
+    dropped - nothing else - and the values are compared in the exported order.
 
 H (parcels, all short histories)
     ``[enter ctx]* [touch] save [exit|enter ctx]* load [read under ctx']`` with ctx in
-    {energy_units(u), eigenbasis_of(X)}, nesting <= 2, for 16 saveable classes and the routes
+    {energy_units(u), eigenbasis_of(X)}, nesting <= 2, X in {real symmetric, complex Hermitian}
+    (``kop``), the matrix held by the basis managed classes in {real, complex} (``kdata``), for
+    16 saveable classes and the routes
     save/load (file name), save/load (file object), save_parcel/load_parcel, scopy,
     savedir/loaddir.  Oracle: a TWIN WORLD.  The same history is executed a second time on
     freshly built identical objects WITHOUT save/load (Manager reset in between) and the
@@ -122,6 +129,65 @@ def _g_supported(case):
     return None
 
 
+def _shape_class(shape):
+    """Name of the shape class of a cell; the classes without a dimension of length one
+    keep the names '1D', '2D', '3D'."""
+    shape = tuple(shape)
+    if len(shape) == 1:
+        return "1D-one-point" if shape[0] == 1 else "1D"
+    if len(shape) == 2:
+        if shape == (1, 1):
+            return "2D-one-entry"
+        if shape[0] == 1:
+            return "2D-one-row"
+        if shape[1] == 1:
+            return "2D-one-column"
+        return "2D"
+    return "3D-one-time" if shape[0] == 1 else "3D"
+
+
+def _g_shape_rule(case):
+    """How much of the exported shape the LAYOUT of the file can carry - decided a priori from
+    the layout, not from what the implementation returns.
+
+    'exact'             the loaded array must have the exported shape
+    'modulo-unit-dims'  the loaded shape is the exported one with (possibly) dimensions of
+                        length one dropped, nothing else; values in the exported order
+
+    Only cells whose exported shape HAS a dimension of length one can get the second rule:
+    * export WITH an axis (any format) of 2-D data with ONE column: the layout is
+      [axis | data columns], one row per point of the axis, and two columns is the layout of
+      1-D data.  Every other shape is carried by this layout - also a single row, the table
+      has at least two columns and its rows are the points of the axis: exact;
+    * export WITHOUT axis to .dat/.txt of the DataSaveable classes: a header-less table of
+      rows x columns (numpy.savetxt); a single row, a single column or a single number is the
+      same file whether it was written from 1-D or 2-D data (one column) or is told apart
+      only by the orientation of the table (one row), which a 1-D array does not have.
+    .npy/.npz store the shape, Matlab stores 2-D arrays natively and the library records the
+    number of dimensions next to the data, the text layout of DensityMatrixEvolution is filled
+    into an array of the receiving object: exact."""
+    shape = tuple(case["shape"])
+    if 1 not in shape or case["cls"] == "DensityMatrixEvolution":
+        return "exact"
+    if case["axis"]:
+        return "modulo-unit-dims" if (len(shape) == 2 and shape[1] == 1) else "exact"
+    if case["ext"] in (".dat", ".txt"):
+        return "modulo-unit-dims"
+    return "exact"
+
+
+def _drops_only_units(exported, loaded):
+    """True when `loaded` is `exported` with some (or no) entries equal to one removed."""
+    exported, loaded = list(exported), list(loaded)
+    k = 0
+    for n in exported:
+        if k < len(loaded) and loaded[k] == n:
+            k += 1
+        elif n != 1:
+            return False
+    return k == len(loaded)
+
+
 def _g_roundtrip(case, tmp):
     """Returns (data_out, loaded_data, axis_out_values|None, loaded_axis_values|None)."""
     qr = isolation.qr()
@@ -213,8 +279,9 @@ def eval_g(case):
     viol = []
     unsupported = _g_supported(case)
     cell = "%s/%s/%s/%s" % (case["ext"], "with-axis" if case["axis"] else "no-axis",
-                            "%dD" % len(case["shape"]),
+                            _shape_class(case["shape"]),
                             "real" if case["dtype"].startswith("real") else "complex")
+    rule = _g_shape_rule(case)
     if case.get("ctx"):
         cell += "/inside-energy_units(%s)" % case["ctx"]
     tmp = _mkdtemp("c18g_")
@@ -248,11 +315,21 @@ def eval_g(case):
         shutil.rmtree(tmp, ignore_errors=True)
     back = numpy.asarray(back)
     err = 0.0
-    if back.shape != data.shape:
+    squeezed = None
+    if rule == "exact":
+        shape_ok = back.shape == data.shape
+    else:
+        shape_ok = _drops_only_units(data.shape, back.shape)
+        if shape_ok and back.shape != data.shape:
+            squeezed = "%s %s: exported %s, loaded %s" % (case["cls"], cell, data.shape,
+                                                          back.shape)
+            back = back.reshape(data.shape)     # same C order: only unit dimensions differ
+    if not shape_ok:
         viol.append(("export/shape-differs/%s" % cell,
-                     "%s: exported shape %s came back as %s"
-                     % (case["cls"], data.shape, back.shape),
-                     {"exported": list(data.shape), "loaded": list(back.shape)}))
+                     "%s: exported shape %s came back as %s (shape rule of the cell: %s)"
+                     % (case["cls"], data.shape, back.shape, rule),
+                     {"exported": list(data.shape), "loaded": list(back.shape),
+                      "rule": rule}))
     else:
         # class R applied PER ENTRY: every format of the matrix is lossless (text is written
         # with 18 digits), and the wide-range flavour would hide its small entries behind
@@ -274,22 +351,28 @@ def eval_g(case):
                 viol.append(("export/axis-differs/%s" % cell,
                              "%s: loaded axis values differ from exported ones by %g"
                              % (case["cls"], aerr), {"err": aerr}))
+    info = {"dev": {"export-values-per-entry": err if numpy.isfinite(err) else -1.0,
+                    "export-axis": aerr}}
+    if squeezed:
+        info["squeezed"] = squeezed
     return {"nontrivial": True,
-            "outcome": ["ok" if not viol else "bad", case["cls"], cell, _digest(back)],
-            "violations": viol,
-            "info": {"dev": {"export-values-per-entry": err if numpy.isfinite(err) else -1.0,
-                             "export-axis": aerr}}}
+            "outcome": ["ok" if not viol else "bad", case["cls"], cell, _digest(back),
+                        "unit-dims-dropped" if squeezed else "shape-kept"],
+            "violations": viol, "info": info}
 
 
 def cases_g(tier):
+    # N and M start at ONE: (1,), (1,M), (N,1), (1,1) are part of the product
     if tier == "quick":
-        Ns, Ms, flav = [2, 5], [2, 3], ["real", "complex"]
-        herm = [(2, 1), (3, 2), (2, 3)]
+        Ns, Ms, flav = [1, 2, 5], [1, 2, 3], ["real", "complex"]
+        herm = [(1, 1), (2, 1), (1, 2), (3, 2), (2, 3)]
     else:
-        Ns, Ms = [2, 3, 5, 8, 16], [2, 3, 4, 7]
+        Ns, Ms = [1, 2, 3, 5, 8, 16], [1, 2, 3, 4, 7]
         flav = ["real", "complex", "real-wide", "complex-zero-imag", "complex-pure-imag"]
-        herm = [(nt, d) for nt in (2, 3, 5, 8) for d in (1, 2, 3, 4)]
+        herm = [(nt, d) for nt in (1, 2, 3, 5, 8) for d in (1, 2, 3, 4)]
     shapes = [[n] for n in Ns] + [[n, m] for n in Ns for m in Ms]
+    # the sub-product inside a units context (unit conversion of the exported axis)
+    ctx_shapes = [[n] for n in Ns if n > 1][:2] + [[2, 2]]
     cs = []
     for cls in ["DFunction", "AbsSpectrum", "TwoDResponse"]:
         for shape in shapes:
@@ -301,7 +384,7 @@ def cases_g(tier):
                         cs.append({"part": "G", "cls": cls, "ext": ext, "dtype": f,
                                    "shape": shape, "axis": axis})
                         if cls in ("AbsSpectrum", "TwoDResponse") and axis and \
-                                f in ("real", "complex") and shape in shapes[:2] + shapes[len(Ns):len(Ns) + 1]:
+                                f in ("real", "complex") and shape in ctx_shapes:
                             for ctx in (["1/cm"] if tier == "quick" else ["1/cm", "eV", "nm"]):
                                 cs.append({"part": "G", "cls": cls, "ext": ext, "dtype": f,
                                            "shape": shape, "axis": axis, "ctx": ctx})
@@ -327,6 +410,21 @@ OWN_S = ("Hamiltonian", "Molecule", "MoleculeMode", "Aggregate")   # "B:S" is th
 HOLDERS = ("Molecule", "MoleculeMode", "Aggregate")   # keep basis managed parts (H, dipoles)
 ROUTES = ["save-load", "fileobj", "parcel", "dir", "scopy"]
 ATOMIC = ("scopy",)
+# operator class of the matrices: of the context operators X of eigenbasis_of(X) ("kop", a
+# property of the world: S and A are both real symmetric or both complex Hermitian - with a
+# complex Hermitian X the transformation matrix is unitary, not orthogonal) and of the matrix
+# held by the saved object ("kdata", for the classes that ARE a basis managed matrix; the
+# first entry is the content the class had before this dimension existed)
+KOPS = ["real", "complex"]
+# TransitionDipoleMoment keeps a REAL array (dmoment.py) and its transform assigns into it: in
+# the eigenbasis of a complex Hermitian operator the dipole operator cannot be represented by
+# the class at all (the imaginary part is discarded by the transformation itself, with or
+# without saving - context transparency, C04/C05).  The never-saved twin is then no oracle
+# for this one observable, which is not compared in worlds with complex context operators.
+REAL_STORAGE_OBSERVABLES = ("D.data",)
+DATA_KINDS = {"Operator": ["real", "complex"], "Hamiltonian": ["real", "complex"],
+              "ReducedDensityMatrix": ["complex", "real"],
+              "DensityMatrixEvolution": ["complex", "real"]}
 
 
 def _symm(d, k):
@@ -337,6 +435,21 @@ def _symm(d, k):
         for j in range(i, d):
             a[i, j] = a[j, i] = numpy.cos(1.3 * (i + 1) * (k + 1) + 0.7 * j * j + k) \
                 + (2.0 * i if i == j else 0.0)
+    return a
+
+
+def _hermop(d, k, kind):
+    """Context operator no. k: real symmetric (_symm) or complex Hermitian with the same real
+    part, every off-diagonal element with a non-vanishing imaginary part."""
+    a = _symm(d, k)
+    if kind == "real":
+        return a
+    a = a.astype(complex)
+    for i in range(d):
+        for j in range(i + 1, d):
+            v = 0.35 + 0.5 * numpy.sin(0.9 * (i + 1) * (k + 2) + 0.4 * j * j + k)
+            a[i, j] += 1j * v
+            a[j, i] -= 1j * v
     return a
 
 
@@ -355,11 +468,16 @@ def _twod(qr, f):
     return r
 
 
-def _build(cls, v):
+def _build(cls, v, kdata=None):
     """Fresh real object of class `cls`, content variant v (0 = object under test, 1 = the
-    decoy saved first into the same directory).  Returns (obj, dim, own_hamiltonian|None)."""
+    decoy saved first into the same directory), matrix kind kdata (DATA_KINDS; None = the
+    first kind of the class).  Returns (obj, dim, own_hamiltonian|None)."""
     qr = isolation.qr()
     f = 1.0 + 0.5 * v
+    if kdata is None:
+        kdata = DATA_KINDS.get(cls, [None])[0]
+    elif kdata not in DATA_KINDS.get(cls, ()):
+        raise isolation.HarnessError("class %s has no matrix kind %r" % (cls, kdata))
     if cls == "TimeAxis":
         return qr.TimeAxis(0.5 + v, 6, 1.5 * f), 2, None
     if cls == "FrequencyAxis":
@@ -370,21 +488,33 @@ def _build(cls, v):
         return qr.DFunction(qr.TimeAxis(0.0, 5, 2.0 * f),
                             numpy.arange(5) * (1 + 0.5j) * f + 0.25), 2, None
     if cls == "Operator":
-        return qr.qm.Operator(data=f * numpy.array([[1., 2, 3], [0.5, -1, 4],
-                                                    [7, 0.25, 2]])), 3, None
+        a = f * numpy.array([[1., 2, 3], [0.5, -1, 4], [7, 0.25, 2]])
+        if kdata == "complex":              # general complex matrix, not Hermitian
+            a = a + 1j * f * numpy.array([[0.3, -1, 0.5], [2, 0.7, -0.25], [1.5, 3, -0.6]])
+        return qr.qm.Operator(data=a), 3, None
     if cls == "Hamiltonian":
         h = numpy.array([[0., 0, 0], [0, 12000., 150.], [0, 150., 12300.]]) * f
+        if kdata == "complex":              # complex Hermitian: complex couplings
+            h = h.astype(complex)
+            for (i, j), c in {(0, 1): 40j, (0, 2): 25 - 60j, (1, 2): 90j}.items():
+                h[i, j] += c * f
+                h[j, i] += numpy.conj(c * f)
         with qr.energy_units("1/cm"):
             ham = qr.Hamiltonian(data=h)
         return ham, 3, ham
     if cls == "ReducedDensityMatrix":
         r = numpy.array([[0.5, 0.1 + 0.2j, 0], [0.1 - 0.2j, 0.3, 0.05j], [0, -0.05j, 0.2]])
+        if kdata == "real":                 # real symmetric
+            r = numpy.array([[0.5, 0.1, 0.02], [0.1, 0.3, -0.05], [0.02, -0.05, 0.2]])
         return qr.ReducedDensityMatrix(data=r * f), 3, None
     if cls == "DensityMatrixEvolution":
         from quantarhei.qm.propagators.dmevolution import DensityMatrixEvolution
         o = DensityMatrixEvolution(qr.TimeAxis(0.0, 3, 1.0))
         o.dim = 3
-        o.data = _herm("complex", 3, 3) * f
+        # "real": real symmetric VALUES in the complex storage the class declares
+        # (BasisManagedComplexArray); DensityMatrixEvolution.transform assigns into the
+        # existing array, a real dtype could not hold the matrix in a complex basis at all
+        o.data = _herm("complex" if kdata == "complex" else "complex-zero-imag", 3, 3) * f
         return o, 3, None
     if cls in ("Molecule", "MoleculeMode"):
         with qr.energy_units("1/cm"):
@@ -517,14 +647,15 @@ class _World:
         isolation.reset_manager()
         self.qr = qr
         self.cls = case["cls"]
-        self.obj, dim, own = _build(self.cls, 0)
-        self.decoy = _build(self.cls, 1)[0] if case["route"] == "dir" else None
+        kop, kdata = case.get("kop", "real"), case.get("kdata")
+        self.obj, dim, own = _build(self.cls, 0, kdata)
+        self.decoy = _build(self.cls, 1, kdata)[0] if case["route"] == "dir" else None
         if own is not None:
             self.S = own
         else:
             with qr.energy_units("1/cm"):
-                self.S = qr.Hamiltonian(data=1000.0 * _symm(dim, 0))
-        self.A = qr.qm.SelfAdjointOperator(data=_symm(dim, 1))
+                self.S = qr.Hamiltonian(data=1000.0 * _hermop(dim, 0, kop))
+        self.A = qr.qm.SelfAdjointOperator(data=_hermop(dim, 1, kop))
         self.stack = []
 
     def enter(self, tok):
@@ -637,6 +768,15 @@ def _basis_signature(case):
         rel = "context-exited"
     else:
         rel = "context-replaced"
+    # is one of the contexts the object is represented in complex Hermitian (unitary, not
+    # orthogonal transformation)?  B:A follows kop; B:S is the own Hamiltonian of the OWN_S
+    # classes (complex only for a complex Hamiltonian), else follows kop
+    kop, kdata = case.get("kop", "real"), case.get("kdata")
+    for tok, _ in at_save[:ds]:
+        if (kdata == "complex" and case["cls"] == "Hamiltonian") if (own and tok == "B:S") \
+                else kop == "complex":
+            rel += "/complex-hermitian-context"
+            break
     return "saved-in-basis-context/%s" % rel, ds, dr
 
 
@@ -714,8 +854,8 @@ def _twin_world(case):
     """Expected observations: the history on never-saved objects.  Deterministic function of
     (class, history, whether the directory decoy exists), so it is computed once for the
     routes of one history (the cases of one history are consecutive)."""
-    key = repr((case["cls"], case["pre"], case["touch"], case["mid"], case["rd"],
-                case["route"] == "dir"))
+    key = repr((case["cls"], case.get("kop"), case.get("kdata"), case["pre"], case["touch"],
+                case["mid"], case["rd"], case["route"] == "dir"))
     if key not in _TWIN:
         if len(_TWIN) > 8:
             _TWIN.clear()
@@ -754,8 +894,10 @@ def eval_h(case):
             tempfile.tempdir = saved_tempdir
     finally:
         shutil.rmtree(tmp, ignore_errors=True)
-    hist = "%s via %s: pre=%s touch=%d | save | mid=%s | load | read=%s" % (
-        cls, case["route"], case["pre"], case["touch"], case["mid"], case["rd"])
+    hist = "%s%s via %s%s: pre=%s touch=%d | save | mid=%s | load | read=%s" % (
+        cls, "[%s matrix]" % case["kdata"] if case.get("kdata") else "", case["route"],
+        " (context operators complex Hermitian)" if case.get("kop") == "complex" else "",
+        case["pre"], case["touch"], case["mid"], case["rd"])
     nontrivial = bool(case["pre"] or case["mid"] or case["rd"] not in ("here", "root"))
     worst = 0.0
     if st1 == "dir-tags":
@@ -776,6 +918,8 @@ def eval_h(case):
                 "violations": viol}
     dig = []
     for name in exp:
+        if case.get("kop") == "complex" and name.split(":")[-1] in REAL_STORAGE_OBSERVABLES:
+            continue
         if name not in got:
             viol.append(("parcel/observable-missing/%s/%s/%s" % (sig, cls, name),
                          hist + ": loaded object lacks observable " + name, None))
@@ -840,13 +984,18 @@ def cases_h(tier):
     hs = histories(tokens, maxdepth, lmid)
     cs = []
     for hh in hs:
-        for cls in CLASSES:
-            for route in ROUTES:
-                if route in ATOMIC and hh["mid"]:
-                    continue                # scopy saves and loads in one call
-                c = {"part": "H", "cls": cls, "route": route}
-                c.update(hh)
-                cs.append(c)
+        basis = any(t.startswith("B:") for t in hh["pre"] + hh["mid"] + [hh["rd"]])
+        for kop in (KOPS if basis else KOPS[:1]):   # no basis context: no context operator
+            for cls in CLASSES:
+                for kdata in DATA_KINDS.get(cls, [None]):
+                    for route in ROUTES:
+                        if route in ATOMIC and hh["mid"]:
+                            continue        # scopy saves and loads in one call
+                        c = {"part": "H", "cls": cls, "route": route, "kop": kop}
+                        if kdata is not None:
+                            c["kdata"] = kdata
+                        c.update(hh)
+                        cs.append(c)
     return cs
 
 
@@ -866,7 +1015,7 @@ def cases(tier):
 
 
 def _collect(run, infos):
-    worst, unsup, twin = {}, {}, {}
+    worst, unsup, twin, squeezed = {}, {}, {}, {}
     for i in infos:
         for k, v in (i.get("dev") or {}).items():
             worst[k] = max(worst.get(k, 0.0), float(v))
@@ -874,7 +1023,10 @@ def _collect(run, infos):
             unsup[i["unsupported"]] = unsup.get(i["unsupported"], 0) + 1
         if "twin_fail" in i:
             twin[i["twin_fail"]] = twin.get(i["twin_fail"], 0) + 1
-    return worst, unsup, twin
+        if "squeezed" in i:
+            k = i["squeezed"].split(":")[0]
+            squeezed[k] = squeezed.get(k, 0) + 1
+    return worst, unsup, twin, squeezed
 
 
 def run(run):
@@ -883,25 +1035,34 @@ def run(run):
                 "the class offers must round-trip (cells the class does not offer are tried, "
                 "must be refused or round-trip, and are counted trivial); H: every history "
                 "pre(<=%d contexts) [touch] save mid(<=%d exits/entries) load read(here | one "
-                "more context | after leaving all) x class x route; non-trivial = at least "
-                "one context anywhere in the history" % (maxdepth, lmid))
+                "more context | after leaving all) x operator class of the context operators "
+                "{real symmetric, complex Hermitian} (histories with a basis context) x class "
+                "x matrix kind {real, complex} (basis managed matrix classes) x route; "
+                "non-trivial = at least one context anywhere in the history" % (maxdepth, lmid))
     run.assumptions = [
         "expected values of H come from a twin world: the same history on identically built "
         "objects that are never saved (context transparency itself is C04/C05)",
         "observables are read through public accessors only",
         "third-party containers (numpy.save/savetxt, scipy.io, dill) are trusted",
-        "single-row / single-column arrays are outside the grid (text and two-column "
-        "layouts cannot represent them unambiguously)"]
+        "worlds with complex Hermitian context operators do not compare the transition dipole "
+        "moment array of molecules and aggregates: the class stores it in a real array which "
+        "cannot hold the operator in a complex basis (lossy with or without saving)",
+        "G shape rule: where the layout of the file cannot tell a dimension of length one "
+        "from no dimension (header-less .dat/.txt tables without axis; [axis | data] layout "
+        "with one data column) the loaded shape may be the exported one with unit dimensions "
+        "dropped (a 1-D array of one point may so come back 0-dimensional from text); "
+        "everywhere else the shape must be exact"]
     run.bounds = {"G": {"extensions": EXTS,
                         "classes": ["DFunction", "AbsSpectrum", "TwoDResponse",
                                     "DensityMatrixEvolution"]},
                   "H": {"contexts": tokens, "max_nesting": maxdepth, "max_mid_ops": lmid,
-                        "classes": CLASSES, "routes": ROUTES}}
+                        "classes": CLASSES, "routes": ROUTES,
+                        "context_operator_class": KOPS, "matrix_kind": DATA_KINDS}}
     ig = run_grid(run, cases_g(run.tier), eval_case, section="G-formats")
     ih = run_grid(run, cases_h(run.tier), eval_case, section="H-parcels")
-    worst, unsup, twin = _collect(run, ig + ih)
+    worst, unsup, twin, squeezed = _collect(run, ig + ih)
     run.note(worst_relative_deviation=worst, cells_not_offered_by_class=unsup,
-             twin_world_failures=twin)
+             twin_world_failures=twin, cells_loaded_with_unit_dimensions_dropped=squeezed)
     if twin:
         raise isolation.HarnessError("twin world failed for %d histories: %r"
                                      % (sum(twin.values()), list(twin)[:3]))
